@@ -1437,7 +1437,8 @@ pub fn replay(rp: &Value) -> Result<Option<Violation>, String> {
 			let rs = rp["run_seed"].as_u64().ok_or("run_seed missing")?;
 			let faulty = rp["faulty"].as_bool().unwrap_or(false);
 			let mut world = crate::pibdsim::build_world(seed, long, fat, quiet)?;
-			let out = pibd_net_run(&world, rs, "pibdnet-replay", faulty, long);
+			let archive = rp["archive"].as_bool().unwrap_or(false);
+			let out = pibd_net_run_mode(&world, rs, "pibdnet-replay", faulty, long, archive);
 			world.cleanup();
 			Ok(out.violation.map(|mut v| {
 				v.replay = rp.clone();
@@ -1520,6 +1521,16 @@ pub struct PibdNetOutcome {
 /// NetToChainAdapter::receive_*_segment and Desegmenter take them. While faults are on, the wire
 /// drops, duplicates, delays (reorders) and corrupts answers (one flipped byte).
 pub fn pibd_net_run(world: &World, seed: u64, tag: &str, faulty: bool, compact_server: bool) -> PibdNetOutcome {
+	pibd_net_run_mode(world, seed, tag, faulty, compact_server, false)
+}
+
+/// `archive`: instead of segments the receiver asks for the state archive (`TxHashSetRequest`, as
+/// `StateSync::request_state` does through `Peer::send_txhashset_request`); the serving node's real
+/// Protocol answers with `TxHashSetArchive` and streams the zip behind it; the simulator carries the
+/// message and the attachment (in seeded write sizes) to the receiver, whose real connection reader
+/// stores the attachment and whose Protocol hands the file to `txhashset_write`. While faults are on,
+/// the first attempt carries one flipped byte (or is cut short by the peer hanging up).
+pub fn pibd_net_run_mode(world: &World, seed: u64, tag: &str, faulty: bool, compact_server: bool, archive: bool) -> PibdNetOutcome {
 	use grin_chain::SyncStatus;
 	use grin_core::core::{SegmentIdentifier, SegmentType, SegmentTypeIdentifier};
 	install_panic_recorder();
@@ -1638,12 +1649,137 @@ pub fn pibd_net_run(world: &World, seed: u64, tag: &str, faulty: bool, compact_s
 		};
 		let archive_id = world.id_of_hash(&ah.hash()).unwrap_or(0);
 		out.log.push(format!("archive header #{} h{}", archive_id, ah.height));
-		receiver.sync.update_pibd_progress(false, false, 0, 1, &ah);
-		let des = match receiver.chain.desegmenter(&ah) {
-			Ok(d) => d,
-			Err(e) => {
-				result = Some(v("desegmenter", format!("{:?}", e)));
+		let mut archive_done = false;
+		if archive {
+			use grin_p2p::msg::{TxHashSetArchive, TxHashSetRequest};
+			let attempts = if faulty { 2 } else { 1 };
+			for attempt in 0..attempts {
+				let bad = faulty && attempt == 0;
+				receiver.sync.clear_sync_error();
+				receiver.sync.update(SyncStatus::TxHashsetDownload(Default::default()));
+				if !sp[1].alive {
+					match connect_outbound(&receiver, 50 + attempt, wtd, wh, Capabilities::default()) {
+						Ok(mut p) => {
+							p.slot = 1;
+							sp[1] = p;
+						}
+						Err(e) => {
+							result = Some(v("harness-connect", e));
+							break 'run;
+						}
+					}
+				}
+				let peer = sp[1].node_peer.clone().expect("peer object");
+				if let Err(e) = peer.send_txhashset_request(ah.height, ah.hash()) {
+					result = Some(v("request-send-failed", format!("{:?}", e)));
+					break 'run;
+				}
+				if let Err(e) = barrier(&mut sp[1..2], Some(0)) {
+					result = Some(v("connection-stuck", format!("receiver, after its archive request: {}", e)));
+					break 'run;
+				}
+				let asked: Vec<Message> = std::mem::take(&mut sp[1].inbox);
+				let req = asked.into_iter().find_map(|m| if let Message::TxHashSetRequest(r) = m { Some(r) } else { None });
+				let req = match req {
+					Some(r) => r,
+					None => {
+						result = Some(v("archive-request-not-sent", "the receiver's Peer object did not put a TxHashSetRequest on the wire".into()));
+						break 'run;
+					}
+				};
+				sp[0].attachment.clear();
+				sp[0].send(Type::TxHashSetRequest, TxHashSetRequest { hash: req.hash, height: req.height });
+				if let Err(e) = barrier(&mut sp[0..1], Some(0)) {
+					result = Some(v("connection-stuck", format!("serving node, after the archive request: {}", e)));
+					break 'run;
+				}
+				let ans = std::mem::take(&mut sp[0].inbox).into_iter().find_map(|m| if let Message::TxHashSetArchive(a) = m { Some(a) } else { None });
+				let ans = match ans {
+					Some(a) => a,
+					None => {
+						result = Some(v("request-not-served", "the serving node did not answer the archive request".into()));
+						break 'run;
+					}
+				};
+				let mut zip = std::mem::take(&mut sp[0].attachment);
+				if zip.len() as u64 != ans.bytes {
+					result = Some(v("archive-attachment-length", format!("the serving node announced {} bytes and streamed {}", ans.bytes, zip.len())));
+					break 'run;
+				}
+				bump!(out.probes, "archive_served_over_the_wire");
+				out.log.push(format!("archive {}@{} {} bytes, attempt {} bad {}", ans.hash, ans.height, ans.bytes, attempt, bad));
+				let mut cut = zip.len();
+				if bad {
+					if rng.chance(1, 3) && zip.len() > 10 {
+						cut = rng.usize_below(zip.len());
+						bump!(out.faults, "archive_cut_short_by_hangup");
+					} else if !zip.is_empty() {
+						let i = rng.usize_below(zip.len());
+						zip[i] ^= 1 << rng.below(8);
+						bump!(out.faults, "archive_byte_flipped");
+					}
+				}
+				let before = receiver.digest().ok();
+				sp[1].send(Type::TxHashSetArchive, TxHashSetArchive { hash: ans.hash, height: ans.height, bytes: ans.bytes });
+				// the attachment follows the message unframed, in whatever pieces the sender's writes make
+				let mut off = 0;
+				while off < cut {
+					let n = (*rng.pick(&[1usize, 7, 4096, 8000, 47_999, 48_000, 48_001, 100_000])).min(cut - off);
+					sp[1].send_bytes(&zip[off..off + n]);
+					off += n;
+				}
+				if cut < zip.len() {
+					sp[1].close();
+					std::thread::sleep(Duration::from_millis(50));
+				} else if let Err(e) = barrier(&mut sp[1..2], Some(0)) {
+					result = Some(v("connection-stuck", format!("receiver, after the archive: {}", e)));
+					break 'run;
+				}
+				if let Some(p) = take_panics().first() {
+					result = Some(v("node-thread-panicked", p.clone()));
+					break 'run;
+				}
+				let after = receiver.digest().ok();
+				let status = receiver.sync.status();
+				out.log.push(format!("  receiver status {:?} head {:?}", std::mem::discriminant(&status), after.as_ref().map(|d| d.head_height)));
+				if bad {
+					// whatever it was sent, it must not have finalised anything but the reference state; the
+					// usual outcome is a refusal with the state untouched
+					if after != before {
+						bump!(out.probes, "archive_with_fault_changed_state");
+					} else {
+						bump!(out.probes, "bad_archive_refused_state_unchanged");
+					}
+					if matches!(status, SyncStatus::TxHashsetDone) {
+						archive_done = true;
+						break;
+					}
+				} else {
+					if !matches!(status, SyncStatus::TxHashsetDone) {
+						result = Some(v("honest-archive-refused", format!("the honest state archive sent over the wire was not accepted: sync status {:?}, sync error {:?}", std::mem::discriminant(&status), receiver.sync.sync_error().map(|e| format!("{:?}", e)))));
+						break 'run;
+					}
+					archive_done = true;
+				}
+			}
+			if !archive_done {
+				result = Some(v("archive-sync-did-not-complete", "no attempt completed the state sync from the archive".into()));
 				break 'run;
+			}
+			bump!(out.probes, "archive_sync_completed_over_the_wire");
+		}
+		if !archive {
+			receiver.sync.update_pibd_progress(false, false, 0, 1, &ah);
+		}
+		let des = if archive {
+			None
+		} else {
+			match receiver.chain.desegmenter(&ah) {
+				Ok(d) => Some(d),
+				Err(e) => {
+					result = Some(v("desegmenter", format!("{:?}", e)));
+					break 'run;
+				}
 			}
 		};
 		// frames on their way from S to R: (deliver not before round, type, frame bytes, corrupted?)
@@ -1652,14 +1788,15 @@ pub fn pibd_net_run(world: &World, seed: u64, tag: &str, faulty: bool, compact_s
 		let fault_rounds = if faulty { 40u64 } else { 0 };
 		let max_rounds = fault_rounds + 80;
 		let mut bitmap_ready = false;
-		let mut done = false;
+		let mut done = archive_done;
 		let mut rounds = 0u64;
-		while rounds < max_rounds {
+		while !archive_done && rounds < max_rounds {
 			rounds += 1;
 			let faults_on = rounds <= fault_rounds;
 			// the sync loop's turn: apply, look at progress, ask for what is missing
 			let mut wanted: Vec<SegmentTypeIdentifier> = vec![];
 			{
+				let des = des.as_ref().expect("segment mode");
 				let mut guard = des.write();
 				let d = match guard.as_mut() {
 					Some(d) => d,
@@ -1841,7 +1978,8 @@ pub fn pibd_net_run(world: &World, seed: u64, tag: &str, faulty: bool, compact_s
 			break 'run;
 		}
 		// completion, as StateSync::check_run does it
-		{
+		if !archive_done {
+			let des = des.as_ref().expect("segment mode");
 			let guard = des.write();
 			let d = guard.as_ref().expect("desegmenter");
 			if let Err(e) = d.check_update_leaf_set_state() {
